@@ -42,7 +42,7 @@ EXT = 'tools/pycdlib-extract-files'
 M('readinto-forgets-offset', 'fault', ['C16'], ['SA-PAIR.stream'],
   [(IOF, "            m[:n] = data\n            self._offset += n\n", "            m[:n] = data\n")], 'readinto')
 M('read-without-seek', 'fault', ['C16'], ['SA-SEEK.position'],
-  [(IOF, "            readsize = min(self._length - self._offset, size)\n            self._fp.seek(self._startpos + self._offset)\n", "            readsize = min(self._length - self._offset, size)\n")], 'PyCdlibIO.read|')
+  [(IOF, "            fp, thislen = self._seek_part(offset)\n            data = fp.read(min(thislen, readsize))\n", "            fp, thislen = self._parts[0][0], readsize\n            data = fp.read(min(thislen, readsize))\n")], '_read_parts')
 M('read-unbounded-size', 'fault', ['C16'], ['SA-SEEK.bound'],
   [(IOF, "            readsize = min(self._length - self._offset, size)\n", "            readsize = size\n")], 'PyCdlibIO.read|')
 M('seek-end-wrong-offset', 'fault', ['C16'], ['SA-SEEK.seekmethod'],
@@ -52,8 +52,7 @@ M('opendata-skips-seek-for-external', 'fault', ['C16'], ['SA-SEEK.opendata'],
 M('copy-reads-blocksize', 'fault', ['C16'], ['SA-SEEK.copy'],
   [(UT, "        readsize = min(blocksize, left)\n", "        readsize = blocksize\n")], 'copy_data_yield')
 M('twin-read-temp', 'twin', ['C16'], [],
-  [(IOF, "            data = self._fp.read(readsize)\n            self._offset += readsize\n\n        return data\n",
-    "            chunk = self._fp.read(readsize)\n            self._offset += readsize\n            data = chunk\n\n        return data\n")])
+  [(IOF, "            data = self._read_parts(readsize)\n            self._offset += readsize\n\n        return data\n", "            chunk = self._read_parts(readsize)\n            self._offset += readsize\n            data = chunk\n\n        return data\n")])
 
 # ---------------------------------------------------------------- C12
 M('stale-loop-var-back', 'fault', ['C12'], ['SA-STALEVAR'],
@@ -123,7 +122,7 @@ M('rr-placement-wrong-class-length', 'fault', ['C08'], ['SA-PAIR.rr_placement'],
 M('second-writer-of-image', 'fault', ['C02', 'C17'], ['SA-OWN.image'],
   [(PY, "        self._cdfp.seek(extent * self.logical_block_size)\n\n    @functools.lru_cache(maxsize=256)\n    def _find_iso_record", "        self._cdfp.seek(extent * self.logical_block_size)\n        self._cdfp.write(b'')\n\n    @functools.lru_cache(maxsize=256)\n    def _find_iso_record")], '_seek_to_extent')
 M('edit-sets-extent-directly', 'fault', ['C04', 'C06'], ['SA-OWN.derived', 'SA-OWN.inode-set-extent'],
-  [(PY, "            if ino is not None:\n                self.inodes.append(ino)\n\n            left -= thislen", "            if ino is not None:\n                ino.set_extent_location(0)\n                self.inodes.append(ino)\n\n            left -= thislen")], '_add_fp')
+  [(PY, "            if ino is not None:\n                self.inodes.append(ino)\n            if offset == 0:", "            if ino is not None:\n                ino.set_extent_location(0)\n                self.inodes.append(ino)\n            if offset == 0:")], '_add_fp')
 M('stale-flag-cleared-by-query', 'fault', ['C06'], ['SA-OWN.needs_reshuffle'],
   [(PY, "    def force_consistency(self):", "    def _mark_clean(self):\n        self._needs_reshuffle = False\n\n    def force_consistency(self):")], '_mark_clean')
 M('space-size-written-by-edit', 'fault', ['C04', 'C01'], ['SA-OWN.space_size'],
@@ -143,13 +142,13 @@ M('twin-pair-reorder', 'twin', ['C07', 'C02'], [],
 M('symlink-name-unchecked', 'fault', ['C13'], ['SA-GATE.iso_name'],
   [(PY, "            (name, parent) = self._iso_name_and_parent_from_path(symlink_path_bytes)\n            _check_iso9660_filename(name, self.interchange_level)\n", "            (name, parent) = self._iso_name_and_parent_from_path(symlink_path_bytes)\n")], 'add_symlink')
 M('directory-checked-as-file', 'fault', ['C13'], ['SA-GATE.iso_name'],
-  [(PY, "            _check_iso9660_directory(name, self.interchange_level)\n\n            relocated = False", "            _check_iso9660_filename(name, self.interchange_level)\n\n            relocated = False")], 'add_directory')
+  [(PY, "            _check_iso9660_directory(name, self.interchange_level)\n\n            # Creating the record for a Rock Ridge directory", "            _check_iso9660_filename(name, self.interchange_level)\n\n            # Creating the record for a Rock Ridge directory")], 'add_directory')
 M('joliet-limit-raised', 'fault', ['C09', 'C13'], ['SA-GATE.joliet'],
   [(PY, "        if len(joliet_name) > 2 * 64:\n", "        if len(joliet_name) > 2 * 128:\n")], 'limit')
 M('joliet-limit-on-path-not-name', 'fault', ['C09'], ['SA-GATE.joliet'],
   [(PY, "        if len(joliet_name) > 2 * 64:\n", "        if len(splitpath) > 2 * 64:\n")], '')
 M('udf-dup-guard-removed', 'fault', ['C13'], ['SA-DUPGUARD'],
-  [(UDF, "        if not new_fi_desc.is_parent():\n            for fi_desc in self.fi_descs:\n                if not fi_desc.is_parent() and fi_desc.fi == new_fi_desc.fi:\n                    raise pycdlibexception.PyCdlibInvalidInput('Failed adding duplicate name to parent')\n\n", "")], 'add_file_ident_desc')
+  [(UDF, "        self.check_file_ident_desc(new_fi_desc)\n\n        self.fi_descs.append(new_fi_desc)", "        self.fi_descs.append(new_fi_desc)")], 'add_file_ident_desc')
 M('dup-guard-bypassed-always', 'fault', ['C13'], ['SA-DUPGUARD.bypass'],
   [(PY, "                                                                 rr_name=rr_name,\n                                                                 continuation=offset > 0)", "                                                                 rr_name=rr_name,\n                                                                 continuation=True)")], '')
 M('dr-len-guard-removed', 'fault', ['C13'], ['SA-LENBOUND'],
@@ -157,7 +156,7 @@ M('dr-len-guard-removed', 'fault', ['C13'], ['SA-LENBOUND'],
 M('depth-check-dropped', 'fault', ['C13'], ['SA-GATE.depth'],
   [(PY, "            if not self.rock_ridge and self.enhanced_vd is None:\n                _check_path_depth(iso_path_bytes)\n", "")], 'add_directory')
 M('twin-gate-alias', 'twin', ['C13'], [],
-  [(PY, "            _check_iso9660_directory(name, self.interchange_level)\n\n            relocated = False", "            level = self.interchange_level\n            _check_iso9660_directory(name, level)\n\n            relocated = False")])
+  [(PY, "            _check_iso9660_directory(name, self.interchange_level)\n\n            # Creating the record for a Rock Ridge directory", "            level = self.interchange_level\n            _check_iso9660_directory(name, level)\n\n            # Creating the record for a Rock Ridge directory")])
 
 # ---------------------------------------------------------------- C14
 M('set-hidden-mutates-before-check', 'fault', ['C14'], ['SA-VBM'],
@@ -194,7 +193,7 @@ M('twin-mangle-regex-with-lowercase', 'twin', ['C18'], [],
 M('mangle-dir-too-long-level1', 'fault', ['C18'], ['SA-STR'],
   [(UT, "    if iso_level == 1:\n        maxlen = 8\n    else:\n        maxlen = 31 if is_dir else 30", "    if iso_level == 1:\n        maxlen = 9\n    else:\n        maxlen = 31 if is_dir else 30")], 'level 1')
 M('tool-continue-dropped', 'fault', ['C20'], ['SA-SIB.tool_none'],
-  [(GEN, "                    print('Could not find free ISO9660 name for path %s; skipping' % (localpath),\n                          file=logfp)\n                    continue\n\n                # If this is an El Torito boot file", "                    print('Could not find free ISO9660 name for path %s; skipping' % (localpath),\n                          file=logfp)\n\n                # If this is an El Torito boot file")], 'build_iso_path')
+  [(GEN, "                    print('Could not find free ISO9660 name for path %s; skipping' % (localpath),\n                          file=logfp)\n                    continue\n\n                # Without Rock Ridge the library counts the name of a file as", "                    print('Could not find free ISO9660 name for path %s; skipping' % (localpath),\n                          file=logfp)\n\n                # Without Rock Ridge the library counts the name of a file as")], 'build_iso_path')
 M('tool-dedup-no-compare', 'fault', ['C20'], ['SA-DEDUP'],
   [(GEN, "                            if thishash == oldhash and filecmp.cmp(oldlocal, localpath, shallow=False):", "                            if thishash == oldhash:")], 'duplicate_name')
 M('tool-option-synonym-ignored', 'fault', ['C20'], ['SA-SIB.tool_options'],
@@ -256,11 +255,11 @@ M('eltorito-link-lists-inode-again', 'fault', ['C04', 'C07'], ['SA-FRESH.inodes'
 M('twin-eltorito-link-get', 'twin', ['C04', 'C07'], [],
   [(PY, '            if entry_extent in extent_to_inode:\n                ino = extent_to_inode[entry_extent]\n            else:\n                ino = inode.Inode()\n                ino.parse(entry_extent, entry.length(), self._cdfp,\n                          self.logical_block_size)\n', '            known = extent_to_inode.get(entry_extent)\n            if known is not None:\n                ino = known\n            else:\n                ino = inode.Inode()\n                ino.parse(entry_extent, entry.length(), self._cdfp,\n                          self.logical_block_size)\n')])
 M('modify-in-place-mixes-records', 'fault', ['C02', 'C09', 'C17'], ['SA-COORD'],
-  [(PY, "                abs_extent_loc = record.parent.extent_location() + record.extents_to_here - 1", "                abs_extent_loc = record.parent.extent_location() + child.extents_to_here - 1")], 'modify_file_in_place')
+  [(PY, "                abs_offset = record.orig_offset\n", "                abs_offset = child.orig_offset\n")], 'modify_file_in_place')
 M('remove-child-index-of-other-record', 'fault', ['C02', 'C09', 'C17'], ['SA-COORD'],
   [(PY, "        num_bytes_to_remove += self._remove_child_from_dr(joliet_child,\n                                                          joliet_child.index_in_parent)", "        num_bytes_to_remove += self._remove_child_from_dr(joliet_child,\n                                                          joliet_child.parent.index_in_parent)" )], '_rm_joliet_dir')
 M('twin-coord-alias-free', 'twin', ['C02', 'C09', 'C17'], [],
-  [(PY, "                offset = record.offset_to_here - record.dr_len\n", "                offset = -record.dr_len + record.offset_to_here\n")])
+  [(PY, "                abs_offset = record.orig_offset\n", "                found_at = record.orig_offset\n                abs_offset = found_at\n")])
 M('xa-added-after-length-check', 'fault', ['C13'], ['SA-LENBOUND'],
   [(DR, "            self.xa_record.new()\n            self.dr_len += XARecord.length()\n\n        self.dr_len += (self.dr_len % 2)\n\n        if self.dr_len > 255:\n            raise pycdlibexception.PyCdlibInvalidInput('Name is too long to fit in a directory record')\n",
     "            self.xa_record.new()\n\n        self.dr_len += (self.dr_len % 2)\n\n        if self.dr_len > 255:\n            raise pycdlibexception.PyCdlibInvalidInput('Name is too long to fit in a directory record')\n        if xa:\n            self.dr_len += XARecord.length()\n")], 'dr_len')
@@ -276,7 +275,7 @@ M('efi-update-skipped-when-unmoved', 'fault', ['C06', 'C11', 'C12'], ['SA-RESHUF
 M('twin-mac-update-skipped-when-unmoved', 'twin', ['C06', 'C11', 'C12'], [],
   [(ISOH, "        self.mac_lba = current_extent\n        self.mac_count = sector_count\n", "        if current_extent == self.mac_lba and sector_count == self.mac_count:\n            return\n\n        self.mac_lba = current_extent\n        self.mac_count = sector_count\n")])
 M('second-section-skips-finish', 'fault', ['C06', 'C11', 'C12'], ['SA-RESHUFFLE.flag'],
-  [(PY, "                                             udf_bootcatfile, None, True)\n\n        self._finish_add(0, num_bytes_to_add)\n", "                                             udf_bootcatfile, None, True)\n\n            self._finish_add(0, num_bytes_to_add)\n")], 'add_eltorito')
+  [(PY, "        if bi_table is not None:\n            boot_dirrecord.inode.add_boot_info_table(bi_table)\n\n        self._finish_add(0, num_bytes_to_add)\n", "        if bi_table is not None:\n            boot_dirrecord.inode.add_boot_info_table(bi_table)\n\n            self._finish_add(0, num_bytes_to_add)\n")], 'add_eltorito')
 M('edit-reads-ce-block-extent', 'fault', ['C06'], ['SA-RESHUFFLE.isolation'],
   [(HVD, "        for block in self.rr_ce_blocks:\n            offset = block.add_entry(length)\n", "        for block in self.rr_ce_blocks:\n            if block.extent_location() == 0:\n                continue\n            offset = block.add_entry(length)\n")], 'add_rr_ce_entry')
 M('pass-accumulates', 'fault', ['C06'], ['SA-RESHUFFLE.pure'],
@@ -358,7 +357,7 @@ M('twin-new-bounded-counter-loop-in-parser', 'twin', ['C15'], [],
   [(PY, "        offset = 0\n        out = []\n        extent_to_ptr = {}\n", "        offset = 0\n        out = []\n        extent_to_ptr = {}\n        tries = 0\n        while tries < 3:\n            tries += 1\n")])
 
 M('rr-moved-without-ce-slot', 'fault', ['C01', 'C04', 'C08'], ['SA-PAIR.rr_ce_slot'],
-  [(PY, "        num_bytes_to_add = self._add_child_to_dr(rec)\n        num_bytes_to_add += self._update_rr_ce_entry(rec)\n\n        self._create_dot(self.pvd, rec, self.rock_ridge, self.xa, 0o040555)", "        num_bytes_to_add = self._add_child_to_dr(rec)\n\n        self._create_dot(self.pvd, rec, self.rock_ridge, self.xa, 0o040555)")], '_find_or_create_rr_moved')
+  [(PY, "        num_bytes_to_add = self._add_child_to_dr(rec)\n        num_bytes_to_add += self._update_rr_ce_entry(rec)\n\n        # Only now that the directory exists", "        num_bytes_to_add = self._add_child_to_dr(rec)\n\n        # Only now that the directory exists")], '_find_or_create_rr_moved')
 M('relocation-placeholder-without-ce-slot', 'fault', ['C01', 'C04', 'C08'], ['SA-PAIR.rr_ce_slot'],
   [(PY, "                num_bytes_to_add += self._add_child_to_dr(fake_dir_rec)\n                num_bytes_to_add += self._update_rr_ce_entry(fake_dir_rec)\n", "                num_bytes_to_add += self._add_child_to_dr(fake_dir_rec)\n")], 'fake_dir_rec')
 M('gpt-part-guid-mixed-endian-on-parse-only', 'fault', ['C05', 'C12'], ['SA-SYM.conv'],
@@ -438,12 +437,12 @@ M('twin-gmtoffset-through-a-forwarder', 'twin', ['C19'], [],
    (DT, "        self.gmtoffset = utils.gmtoffset_from_tm(tm, local)\n        self._initialized = True\n", "        self.gmtoffset = gmtoffset_for(tm, local)\n        self._initialized = True\n"),
    (DT, "            self.gmtoffset = utils.gmtoffset_from_tm(tm, local)\n", "            self.gmtoffset = gmtoffset_for(tm, local)\n")])
 
-M('prevalidation-of-udf-path-under-elif', 'fault', ['C14'], ['SA-VBM.prevalidate'],
-  [(PY, "            self._joliet_name_and_parent_from_path(self._normalize_joliet_path(joliet_path))\n        if udf_path:\n            if self.udf_root is None:", "            self._joliet_name_and_parent_from_path(self._normalize_joliet_path(joliet_path))\n        elif udf_path:\n            if self.udf_root is None:")], 'only runs when')
-M('prevalidation-of-directory-paths-skips-empty-string', 'fault', ['C14'], ['SA-VBM.prevalidate'],
-  [(PY, "        if joliet_path is not None:\n            self._joliet_name_and_parent_from_path(self._normalize_joliet_path(joliet_path))\n        if udf_path is not None:\n            if self.udf_root is None:", "        if joliet_path:\n            self._joliet_name_and_parent_from_path(self._normalize_joliet_path(joliet_path))\n        if udf_path:\n            if self.udf_root is None:")], 'only runs when')
+M('prevalidation-of-udf-path-under-elif', 'fault', ['C14'], ['SA-VBM.prevalidate', 'SA-VBM'],
+  [(PY, "            self._check_joliet_destination(self._normalize_joliet_path(joliet_path))\n        if udf_path:\n            self._check_udf_destination(utils.normpath(udf_path), False)", "            self._check_joliet_destination(self._normalize_joliet_path(joliet_path))\n        elif udf_path:\n            self._check_udf_destination(utils.normpath(udf_path), False)")], 'only runs when')
+M('prevalidation-of-directory-paths-skips-empty-string', 'fault', ['C14'], ['SA-VBM.prevalidate', 'SA-VBM'],
+  [(PY, "        if joliet_path is not None:\n            self._check_joliet_destination(self._normalize_joliet_path(joliet_path))\n        if udf_path is not None:\n            self._check_udf_destination(utils.normpath(udf_path), True)", "        if joliet_path:\n            self._check_joliet_destination(self._normalize_joliet_path(joliet_path))\n        if udf_path:\n            self._check_udf_destination(utils.normpath(udf_path), True)")], 'only runs when')
 M('twin-prevalidation-result-checked', 'twin', ['C14'], [],
-  [(PY, "            self._joliet_name_and_parent_from_path(self._normalize_joliet_path(joliet_path))\n        if udf_path:\n            if self.udf_root is None:", "            self._joliet_name_and_parent_from_path(self._normalize_joliet_path(joliet_path))\n        if not udf_path:\n            pass\n        else:\n            if self.udf_root is None:")])
+  [(PY, "            self._check_joliet_destination(self._normalize_joliet_path(joliet_path))\n        if udf_path:\n            self._check_udf_destination(utils.normpath(udf_path), False)", "            self._check_joliet_destination(self._normalize_joliet_path(joliet_path))\n        if not udf_path:\n            pass\n        else:\n            self._check_udf_destination(utils.normpath(udf_path), False)")])
 
 M('parse-error-message-from-exception-args', 'fault', ['C15'], ['SA-EXC.format'],
   [(PY, "            fp.close()\n            raise pycdlibexception.PyCdlibInvalidISO('Failed to parse ISO: %s' % (str(e)))\n", "            fp.close()\n            raise pycdlibexception.PyCdlibInvalidISO('Failed to parse ISO: %s' % (e.args))\n")], 'args tuple')
@@ -457,8 +456,10 @@ M('boot-catalog-test-on-raw-extent', 'fault', ['C16', 'C07'], ['SA-IDENT.sanitiz
 M('inode-map-lookup-on-raw-extent', 'fault', ['C16', 'C07'], ['SA-IDENT.sanitized'],
   [(PY, "                        if len_to_use > 0 and extent_to_use in extent_to_inode:\n                            ino = extent_to_inode[extent_to_use]", "                        if len_to_use > 0 and extent_to_use in extent_to_inode:\n                            ino = extent_to_inode[new_extent_loc]")], 'raw `new_extent_loc`')
 
-M('layout-guard-only-when-bytes-were-added', 'fault', ['C17'], ['SA-GUARD.layout'],
-  [(PY, "                self.udf_logical_volume_integrity.size_tables[0] += num_extents_to_add\n\n        self._layout_changed = True\n", "                self.udf_logical_volume_integrity.size_tables[0] += num_extents_to_add\n\n        if num_bytes_to_add + num_partition_bytes_to_add > 0:\n            self._layout_changed = True\n")], 'stays False')
+M('twin-layout-guard-only-when-bytes-were-added', 'twin', ['C17'], [],
+  [(PY, "                self.udf_logical_volume_integrity.size_tables[0] += num_extents_to_add\n\n        self._layout_changed = True\n", "                self.udf_logical_volume_integrity.size_tables[0] += num_extents_to_add\n\n        if num_bytes_to_add + num_partition_bytes_to_add > 0:\n            self._layout_changed = True\n")])
+M('layout-guard-only-in-lazy-mode', 'fault', ['C17'], ['SA-GUARD.layout'],
+  [(PY, "                self.udf_logical_volume_integrity.size_tables[0] += num_extents_to_add\n\n        self._layout_changed = True\n", "                self.udf_logical_volume_integrity.size_tables[0] += num_extents_to_add\n\n        if not self._always_consistent:\n            self._layout_changed = True\n")], 'stays False')
 M('layout-guard-lowered-by-force-consistency', 'fault', ['C17'], ['SA-GUARD.layout'],
   [(PY, "    def force_consistency(self):", "    def _forget_changes(self):\n        # type: () -> None\n        self._layout_changed = False\n\n    def force_consistency(self):")], 'outside re-initialisation')
 M('twin-layout-guard-raised-first', 'twin', ['C17'], [],
@@ -488,6 +489,27 @@ M('cache-lazy-header-size-from-constants', 'twin', ['C12'], [],
   [(ISOH, GPT_SLOTS, "    __slots__ = ('_initialized', 'is_primary', 'header', 'parts', 'apm_parts', '_hsize')\n"),
    (ISOH, "        self.apm_parts = []  # type: List[APMPartHeader]\n        self._initialized = False\n", "        self.apm_parts = []  # type: List[APMPartHeader]\n        self._hsize = None  # type: Optional[int]\n        self._initialized = False\n"),
    (ISOH, "        part_data = b''.join(tmplist)\n\n        if self.is_primary:", "        part_data = b''.join(tmplist)\n        if self._hsize is None:\n            self._hsize = struct.calcsize(GPTHeader.FMT)\n\n        if self.is_primary:")])
+
+
+# ---- fourth fix round: pre-validation made structural (tables/vbm_prevalidated.json, query twins, stream parts)
+M('prevalidation-call-deleted', 'fault', ['C14'], ['SA-VBM'],
+  [(PY, "        if udf_path:\n            self._check_udf_destination(utils.normpath(udf_path), False)\n\n        left = length", "        left = length")], 'can refuse after')
+M('prevalidation-after-first-entry', 'fault', ['C14'], ['SA-VBM'],
+  [(PY, "        if joliet_path is not None:\n            self._check_joliet_destination(self._normalize_joliet_path(joliet_path))\n        if udf_path is not None:\n            self._check_udf_destination(utils.normpath(udf_path), True)\n\n        num_bytes_to_add = 0\n        if iso_path is not None:", "        if udf_path is not None:\n            self._check_udf_destination(utils.normpath(udf_path), True)\n\n        num_bytes_to_add = 0\n        if iso_path is not None:")], 'can refuse after')
+M('eltorito-rollback-removed', 'fault', ['C14'], ['SA-VBM'],
+  [(PY, "            except Exception:\n                # The name for the Boot Catalog file was refused; the ISO\n                # stays without a Boot Catalog, and the boot file is no longer\n                # referenced by its Initial Entry.\n                self.eltorito_boot_catalog = None\n", "            except pycdlibexception.PyCdlibInternalError:\n                # The name for the Boot Catalog file was refused; the ISO\n                # stays without a Boot Catalog, and the boot file is no longer\n                # referenced by its Initial Entry.\n                self.eltorito_boot_catalog = None\n")], 'can refuse after')
+M('query-twin-forgets-a-refusal', 'fault', ['C14'], ['SA-SIB.query_twin'],
+  [(DR, "                if rr_child.rock_ridge is not None and rr_child.rock_ridge.name() == rr_name and not rr_child.rock_ridge.relocated_record():\n                    raise pycdlibexception.PyCdlibInvalidInput('Failed adding duplicate Rock Ridge name to parent')\n", "                if rr_child.rock_ridge is not None and rr_child.rock_ridge.name() == rr_name and not rr_child.rock_ridge.relocated_record():\n                    return\n")], 'duplicate Rock Ridge name')
+M('stream-part-seek-ignores-part-start', 'fault', ['C16'], ['SA-SEEK.position'],
+  [(IOF, "                fp.seek(startpos + offset - partstart)\n", "                fp.seek(startpos + offset)\n")], 'positioned')
+M('stream-parts-not-cumulative', 'fault', ['C16'], ['SA-SEEK.position'],
+  [(IOF, "            self._parts.append((fp, fp.tell(), self._length, length))\n            self._length += length\n", "            self._parts.append((fp, fp.tell(), 0, length))\n            self._length += length\n")], 'back to back')
+M('stream-offset-not-advanced-by-piece', 'fault', ['C16'], ['SA-SEEK.position'],
+  [(IOF, "            offset += len(data)\n            readsize -= len(data)\n", "            offset += readsize\n            readsize -= len(data)\n")], 'advance')
+M('twin-stream-helper-renamed-local', 'twin', ['C16'], [],
+  [(IOF, "            fp, thislen = self._seek_part(offset)\n            data = fp.read(min(thislen, readsize))\n", "            handle, left = self._seek_part(offset)\n            data = handle.read(min(left, readsize))\n")])
+M('chain-walk-never-advances', 'fault', ['C15'], ['SA-TERM'],
+  [(DR, "                last_part = last_part.data_continuation\n                index += 1\n", "                index += 1\n")], 'walk')
 
 
 def applicable(m, sources):
